@@ -1,4 +1,4 @@
-//! harness <casefile> [--timeout-ms N] | harness --selftest
+//! harness <casefile> [--timeout-ms N] | harness --selftest | harness --mutcb
 mod alloc;
 mod classes;
 mod elem;
@@ -9,6 +9,7 @@ mod interp_vec2;
 mod interp_iter;
 mod interp_serde;
 mod interp_ops;
+mod mutcb;
 mod parent;
 mod script;
 mod selftest;
@@ -87,6 +88,7 @@ fn main() {
   while i < args.len() {
     match args[i].as_str() {
       "--selftest" => std::process::exit(selftest::run()),
+      "--mutcb" => std::process::exit(mutcb::run()),
       "--timeout-ms" => {
         i += 1;
         timeout_ms = args.get(i).and_then(|s| s.parse().ok()).unwrap_or(5000);
